@@ -7,6 +7,7 @@ import (
 	"math"
 	"math/big"
 	"reflect"
+	"sort"
 	"strconv"
 	"strings"
 	"time"
@@ -22,6 +23,9 @@ type walker struct {
 	heap      []string // index = id-1
 	unordered bool     // a map with >= 2 entries occurs: byte-exact comparison impossible
 	unsup     string
+	inline    bool            // unfolded form: (ptr <content>) instead of (ptr id); cycles are cut with (cyc)
+	open      map[ptrKey]bool // inline mode: pointers being unfolded
+	sortMaps  bool            // print map entries sorted by their text (canonical form for comparison)
 }
 
 type ptrKey struct {
@@ -207,6 +211,15 @@ func (w *walker) walk(v reflect.Value) string {
 			return "(nil)"
 		}
 		key := ptrKey{t, v.Pointer()}
+		if w.inline {
+			if w.open[key] {
+				return "(cyc)"
+			}
+			w.open[key] = true
+			r := "(ptr " + w.walk(v.Elem()) + ")"
+			delete(w.open, key)
+			return r
+		}
 		id, ok := w.ids[key]
 		if !ok {
 			id = len(w.heap) + 1
@@ -267,8 +280,15 @@ func (w *walker) walk(v reflect.Value) string {
 		var sb strings.Builder
 		sb.WriteString("(map")
 		it := v.MapRange()
+		var entries []string
 		for it.Next() {
-			sb.WriteString(" " + w.walk(it.Key()) + " " + w.walk(it.Value()))
+			entries = append(entries, " "+w.walk(it.Key())+" "+w.walk(it.Value()))
+		}
+		if w.sortMaps {
+			sort.Strings(entries)
+		}
+		for _, e := range entries {
+			sb.WriteString(e)
 		}
 		sb.WriteString(")")
 		return sb.String()
@@ -315,4 +335,22 @@ func describe(v reflect.Value) (sexp string, unordered bool, unsup string) {
 	}
 	sb.WriteString(") " + root + ")")
 	return sb.String(), w.unordered, w.unsup
+}
+
+// unfold: the canonical unfolded text of a value (pointers inlined, map entries sorted).
+func unfold(v reflect.Value) string {
+	w := &walker{ids: map[ptrKey]int{}, inline: true, open: map[ptrKey]bool{}, sortMaps: true}
+	if !v.IsValid() {
+		return "(nil)"
+	}
+	return w.walk(v)
+}
+
+// unfoldI: the same for a value held in an interface{}.
+func unfoldI(x interface{}) string {
+	iv := reflect.New(ifaceType).Elem()
+	if x != nil {
+		iv.Set(reflect.ValueOf(x))
+	}
+	return unfold(iv)
 }
